@@ -258,9 +258,13 @@ fn synth_chain(parent: aranya_runtime::Address, n: usize, key0: u64) -> Result<V
 }
 
 /// A fresh scratch directory for graph files; tmpfs when available (fsync is free there).
-pub fn scratch_dir(tag: &str) -> PathBuf {
+pub fn scratch_dir_path(tag: &str) -> PathBuf {
     let base = if Path::new("/dev/shm").is_dir() { PathBuf::from("/dev/shm") } else { std::env::temp_dir() };
-    let d = base.join(format!("vh-crash-{}-{tag}", std::process::id()));
+    base.join(format!("vh-crash-{}-{tag}", std::process::id()))
+}
+
+pub fn scratch_dir(tag: &str) -> PathBuf {
+    let d = scratch_dir_path(tag);
     let _ = std::fs::remove_dir_all(&d);
     std::fs::create_dir_all(&d).unwrap_or_else(|e| vrt::die(&format!("mkdir {}: {e}", d.display())));
     d
